@@ -929,6 +929,11 @@ impl<T: Clone> Rc<T> {
                 let data: &mut MaybeUninit<T> = mem::transmute(Rc::get_mut_unchecked(&mut rc));
                 data.as_mut_ptr().copy_from_nonoverlapping(&**this, 1);
 
+                // The old allocation is left to its `Weak`s without running
+                // `Drop`: unlink it from the object graph and destroy its link
+                // table first.
+                Self::release_links(this);
+
                 this.inner().dec_strong();
                 // Remove implicit strong-weak ref (no need to craft a fake
                 // Weak here -- we know other Weaks can clean up for us)
